@@ -192,6 +192,30 @@ CHECKS['C17'] = dict(
     note='K4 (truncated pickle/text file kept unreadable) is classified by mechanism. Debris of killed processes and '
          'failed writes is repaired inside C07 and C08.')
 
+CHECKS['C18'] = dict(
+    level='exploration', ref='3/C18',
+    technique='runtime monitoring: lock-step RefCache monitor over histories with interleaved handle events (close, '
+              'second handle, pickle, thread, fresh interpreter process, fork) where every call goes through a randomly '
+              'chosen live handle; settings read-back monitor; fork-misuse sanitizer on the SQLite connection boundary; '
+              'golden directories and encoding tables recorded from the pinned commit',
+    text='~16k calls per quick run through up to a dozen live handles per history on Cache and FanoutCache, ~190 '
+         'sub-histories executed by fresh interpreters and ~190 by forked children on the inherited object; Deque, Index, '
+         'DjangoCache and JSONDisk handle events; 6 golden directories (every key type x value mode, protocol 2, '
+         'JSONDisk, FanoutCache with sub-deque/index, Deque, Index) read completely, ~15k key-encoding/routing rows and '
+         'the schema compared with the released format.',
+    note='Run-time switching of statistics through one handle is not propagated to live handles by design and is not '
+         'generated. Sub-histories executed elsewhere contain no expiring items (lazy culls inside them cannot be '
+         'observed call by call). Value-column layout of new writes is deliberately not pinned, only readability of '
+         'released directories, key encoding, routing, file layout and schema.')
+CHECKS['C19'] = dict(
+    level='exploration', ref='3/C19',
+    technique='runtime monitoring: lock-step reference dictionary keyed by prefix:version:key implementing the Django '
+              'cache-backend contract under a virtual clock',
+    text='~125k calls per quick run over keys x versions x timeouts {omitted, None, 0, -1, positive} with clock jumps x '
+         'TIMEOUT/KEY_PREFIX/VERSION/SHARDS parameters; every return value the contract fixes is compared, ValueError '
+         'for incr/decr/incr_version on missing or expired keys, final read-back after a 63-year jump.',
+    note='Django casts TIMEOUT to int itself. set()/clear() return values are not compared.')
+
 NOT_YET = {}
 
 
